@@ -41,10 +41,7 @@ ImplFull(h, t)  == h = (IF t # 0 THEN t ELSE Size) - 1
 ImplEmpty(h, t) == h = t
 Slice(m, t, n)  == [i \in 1..n |-> m[Wrap(t + i - 1)]]
 \* write sequence s into m starting at slot h (cyclically)
-Store(m, h, s)  == [i \in Idx |->
-                      IF \E k \in 1..Len(s) : Wrap(h + k - 1) = i
-                      THEN s[CHOOSE k \in 1..Len(s) : Wrap(h + k - 1) = i]
-                      ELSE m[i]]
+Store(m, h, s)  == [i \in Idx |-> LET k == Wrap(i - h) + 1 IN IF k <= Len(s) THEN s[k] ELSE m[i]]   \* Len(s) <= Size
 
 TypeOK == /\ head \in Idx /\ tail \in Idx
           /\ mem \in [Idx -> Bytes \cup {0}]
